@@ -3,6 +3,7 @@ package main
 // Maps and range loops.
 
 import (
+	"fmt"
 	"go/types"
 
 	"golang.org/x/tools/go/ssa"
@@ -10,11 +11,22 @@ import (
 
 // keyIndex finds key among the map's entries; equality must be decidable.
 func keyIndex(ma *MapAgg, key Val) int {
+	if kr, isRef := key.(Ref); isRef { // pointer keys: identity
+		for i, k := range ma.Keys {
+			if r, ok := k.(Ref); ok && r == kr {
+				return i
+			}
+		}
+		return -1
+	}
 	kt, ok := key.(Text)
 	if !ok {
 		unsupported("map key of kind %T", key)
 	}
 	for i, k := range ma.Keys {
+		if _, isText := k.(Text); !isText {
+			continue
+		}
 		eq, ok := textEq(k.(Text), kt)
 		if ok && !eq.isConst() && singleAtom(k.(Text)) && singleAtom(kt) {
 			// two different unknown strings used as keys of one map: explored under
@@ -104,11 +116,65 @@ func (e *Exec) lookup(s *State, i *ssa.Lookup) Val {
 	return ret(v, okv)
 }
 
-func (e *Exec) rangeNext(s *State, b *ssa.BasicBlock, idx int, prev *ssa.BasicBlock, ins ssa.Instruction) ([]Out, bool) {
-	unsupported("range over map/string not modelled yet")
-	return nil, true
+// MapIter is the iterator of a `range` over a concrete map. Go's order is
+// unspecified: contracts with `option both-map-orders` are verified once in
+// insertion order and once reversed, and their posts must hold in both.
+type MapIter struct {
+	Cell  int
+	Order []int
+	Key   string // ghost key holding the position
 }
 
+func (e *Exec) rangeNext(s *State, b *ssa.BasicBlock, idx int, prev *ssa.BasicBlock, ins ssa.Instruction) ([]Out, bool) {
+	env := s.top().Env
+	switch i := ins.(type) {
+	case *ssa.Range:
+		m, ok := e.val(s, i.X).(MapV)
+		if !ok {
+			unsupported("range over %T not modelled", e.val(s, i.X))
+		}
+		it := MapIter{Cell: m.Cell, Key: fmt.Sprintf("iter:%d:%s:%d", len(s.Frames), i.Name(), s.Visits[b])}
+		if m.Cell != 0 {
+			ma := s.Heap[m.Cell].(*MapAgg)
+			if ma.Unknown {
+				unsupported("range over a symbolic map")
+			}
+			for k := range ma.Keys {
+				it.Order = append(it.Order, k)
+			}
+			if o, _ := s.Ghost["maporder"].(Text); len(o.Frags) == 1 && o.Frags[0].Lit == "rev" {
+				for l, r := 0, len(it.Order)-1; l < r; l, r = l+1, r-1 {
+					it.Order[l], it.Order[r] = it.Order[r], it.Order[l]
+				}
+			}
+		}
+		s.Ghost[it.Key] = mkInt(0)
+		env[i] = it
+		return nil, false
+	case *ssa.Next:
+		it, ok := e.val(s, i.Iter).(MapIter)
+		if !ok {
+			unsupported("next over %T not modelled", e.val(s, i.Iter))
+		}
+		pos := 0
+		if pv, ok := s.Ghost[it.Key].(*T); ok {
+			p, _ := pv.intVal()
+			pos = int(p)
+		}
+		mt := i.Iter.(*ssa.Range).X.Type().Underlying().(*types.Map)
+		if pos >= len(it.Order) {
+			env[i] = Tuple{tFalse, zeroVal(mt.Key()), zeroVal(mt.Elem())}
+			return nil, false
+		}
+		ma := s.Heap[it.Cell].(*MapAgg)
+		k := it.Order[pos]
+		s.Ghost[it.Key] = mkInt(int64(pos + 1))
+		env[i] = Tuple{tTrue, ma.Keys[k], ma.Vals[k]}
+		return nil, false
+	}
+	unsupported("range instruction %T", ins)
+	return nil, true
+}
 
 var mapKeyAssumptions = map[string]bool{}
 
